@@ -14,7 +14,7 @@ PSW = [20, 35, 60, 85]
 POINTS = ["jc.wait.read", "jc.wait.cas", "jc.dec.read", "jc.dec.cas", "blockq.enq", "wakemany.deq", "wakemany.push"]
 # derived events that the quick tier must exercise too
 DERIVED = ["wakemany.spin", "wait.cas.fail", "wait.cas.fail.then.N", "dec.cas.fail", "wait.late.immediate",
-           "wait.slept", "wait.first.read.N"]
+           "wait.slept", "wait.first.read.N", "jcinit.attr", "jcinit.null"]
 
 
 # ------------------------------------------------------------------------------------------
@@ -100,6 +100,42 @@ def preset_cases(ctx):
     return ["preset %d %d %d" % c for c in out]
 
 
+def reinit_cases(ctx):
+    """object lifecycle, unit level: 2-3 incarnations of one object, same / different N, attr NULL ('n') or an initialised
+    myth_join_counterattr_t ('a'); the harness marks the object as used (completed-round word) between incarnations"""
+    r = ctx.rng
+    out = ["3 a 3 a", "3 n 3 a", "3 a 3 n", "3 n 3 n", "4 a 7 a 4 a", "8 n 2 a 8 a", "0 a 0 a", "1 a 0 a 1 n",
+           "%d a %d a" % (1 << 24, 1 << 24), "%d n %d a %d a" % (1 << 40, 3, (1 << 62) - 1)]
+    for _ in range(20 if not ctx.thorough else 200):
+        n0 = r.choice([1, 2, 3, 4, 7, 8, r.rng(0, 1 << r.rng(1, 61))])
+        spec = []
+        for i in range(r.choice([2, 3])):
+            n = n0 if r.chance(1, 2) else r.choice([0, 1, 2, 3, 4, 7, 8, r.rng(0, 1 << r.rng(1, 61))])
+            spec.append("%d %s" % (n, r.choice("an")))
+        out.append(" ".join(spec))
+    return ["reinit " + x for x in out]
+
+
+def reinit_oracle(case, out):
+    """init does not depend on the previous contents of the object nor on attr: after every (re-)initialisation
+    state = 0, n_threads = N, bits = width of N, mask = 2^bits - 1"""
+    w = case.split()[1:]
+    spec = [(int(w[i]), w[i + 1]) for i in range(0, len(w), 2)]
+    if not out.startswith("reinit ") or out == "reinit none":
+        return "re-initialisation sequence %s did not complete: %s" % (case, out)
+    groups = out[len("reinit "):].split(" ; ")
+    if len(groups) != len(spec):
+        return "re-initialisation sequence %s: %d groups reported" % (case, len(groups))
+    for i, ((n, fl), g) in enumerate(zip(spec, groups)):
+        got = {k: int(v) for k, v in re.findall(r"(\w+)=(-?\d+)", g)}
+        exp = {"n": n, "bits": n.bit_length(), "mask": (1 << n.bit_length()) - 1, "state": 0}
+        if got != exp:
+            return ("incarnation %d: myth_join_counter_init(jc, %s, %d) on %s left %s, expected %s" % (
+                i, "&attr" if fl == "a" else "NULL", n, "dirty memory" if i == 0 else "an object that completed a round with N=%d" % spec[i - 1][0],
+                g, " ".join("%s=%d" % kv for kv in exp.items())))
+    return None
+
+
 WIDTHS_ASSUMED = {"state": 8, "state_signed": 1, "n_threads": 8, "state_mask": 8}
 
 
@@ -141,6 +177,8 @@ def unit_oracle(case, out):
     """calc_bits_spec and the init fields stated directly; None if fine"""
     if case.startswith("preset"):
         return preset_oracle(case, out)
+    if case.startswith("reinit"):
+        return reinit_oracle(case, out)
     k, x = case.split()[0], int(case.split()[1])
     if k == "calc":
         if x >= (1 << 62):
@@ -172,8 +210,8 @@ def unit_oracle(case, out):
 # ------------------------------------------------------------------------------------------
 # program generator: dependency DAGs over join counters
 # ------------------------------------------------------------------------------------------
-def flag(j, k):
-    return "p%s_%d" % (j, k)
+def flag(j, k, r=0):
+    return "p%s_%d" % (j, k) if not r else "p%sr%d_%d" % (j, r, k)
 
 
 def gen_program(r, shape=None):
@@ -276,11 +314,53 @@ def gen_program(r, shape=None):
     return objs, threads
 
 
+def gen_lifecycle(r, rounds=None, force=None):
+    """object lifecycle: ONE join counter object goes through 2-3 incarnations.  Incarnation 0 is the `obj j0 jc N`
+    of the case (attr == NULL), optionally re-initialised before any use (`jcinit j0 N [attr]`); every later
+    incarnation starts with `jcinit j0 N' [attr]` (same or different N, attr == NULL or an initialised
+    myth_join_counterattr_t) issued by the main thread after it joined every thread of the previous round, i.e. the
+    counter has been through a COMPLETE round (N decrements, all waiters back).  Flags are per incarnation.
+    force = list of (N, attr?) per incarnation."""
+    rounds = rounds or r.choice([2, 2, 3])
+    spec = force or []
+    if not spec:
+        n0 = r.choice([1, 2, 3, 4, 7])
+        for i in range(rounds):
+            n = n0 if (i and r.chance(1, 2)) else r.choice([0, 1, 2, 3, 4, 7, 8])
+            spec.append((n, r.chance(1, 2)))
+    objs = ["j0 jc %d" % spec[0][0]]
+    threads, main, t = {}, [], 1
+    for i, (n, attr) in enumerate(spec):
+        for k in range(n):
+            objs.append("%s var 0" % flag("j0", k, i))
+        if i > 0 or attr or r.chance(1, 4):
+            main.append("jcinit j0 %d%s" % (n, " attr" if attr else ""))
+        chk = ["get " + flag("j0", k, i) for k in range(n)]
+        ws, ds = [], []
+        for _ in range(r.rng(1, 3)):
+            threads[t] = ["yield"] * r.choice([0, 0, 1]) + ["jcwait j0"] + chk
+            ws.append(t)
+            t += 1
+        for k in range(n):
+            threads[t] = ["yield"] * r.choice([0, 0, 1, 2]) + ["set %s 1" % flag("j0", k, i), "jcdec j0"]
+            ds.append(t)
+            t += 1
+        order = r.choice(["w", "w", "d", "s"])
+        l = ws + ds if order == "w" else ds + ws
+        if order == "s":
+            r.shuffle(l)
+        main += ["create %d" % x for x in l] + ["join %d" % x for x in l]
+        if r.chance(1, 2):
+            main += ["jcwait j0"] + chk                      # late wait of this incarnation
+    threads[0] = main
+    return objs, threads
+
+
 def gen_cases(ctx, n):
     r = ctx.rng
     cases = []
     for i in range(n):
-        objs, threads = gen_program(r)
+        objs, threads = gen_lifecycle(r) if i % 5 == 4 else gen_program(r)
         for _ in range(r.choice([1, 2, 2, 3])):
             cases.append(trace.case_text(r.rng(1, 4), r.rng(1, 1 << 30), objs, threads, pswitch=r.choice(PSW)))
     return cases
@@ -316,21 +396,41 @@ def jc_objects(case):
     return [(n, p[0] if p else 0) for n, (k, p) in objs.items() if k == "jc"], len(threads)
 
 
-def jc_block(name, nparam, nthreads, events):
-    """driver input block of one join counter; returns (lines, trace event per line)"""
-    lines, src = ["begin %d %d" % (nthreads, nparam)], [None]
-    open_call = {}
+def jc_blocks(name, nparam, nthreads, events):
+    """driver input blocks of one join counter object, one per incarnation (a completed `jcinit name N [attr]`
+    closes the block and opens a new one with the model's fresh init_state N; the init fields reported on the
+    R line are compared at once: `obs`).  Returns a list of (lines, trace event per line, N)."""
+    out = []
+    lines, src, curn = ["begin %d %d" % (nthreads, nparam)], [None], nparam
+    open_call, init_call = {}, {}
     for e in events:
         if e.kind == "C":
+            init_call[e.actor] = None
             if e.words[0] in ("jcwait", "jcdec") and len(e.words) > 1 and e.words[1] == name:
                 lines.append("call %d %s" % (e.actor, "wait" if e.words[0] == "jcwait" else "dec"))
                 src.append(e)
                 open_call[e.actor] = True
+            elif e.words[0] == "jcinit" and len(e.words) > 2 and e.words[1] == name:
+                init_call[e.actor] = int(e.words[2])
         elif e.kind == "R":
             if open_call.get(e.actor):
                 lines.append("ret %d %s" % (e.actor, e.words[1]))
                 src.append(e)
                 open_call[e.actor] = False
+            elif init_call.get(e.actor) is not None:
+                lines.append("end")
+                src.append(None)
+                out.append((lines, src, curn))
+                curn = init_call[e.actor]
+                init_call[e.actor] = None
+                lines, src = ["begin %d %d" % (nthreads, curn)], [None]
+                f = {k: rx.search(" ".join(e.words)) for k, rx in _F.items()}
+                if all(f.values()):
+                    lines.append("obs J %s %s %s %s 0" % (f["state"].group(1), f["n"].group(1), f["bits"].group(1), f["mask"].group(1)))
+                    src.append(e)
+                if e.words[1] != "0":
+                    lines.append("obs ? jcinit returned %s" % e.words[1])
+                    src.append(e)
         elif e.kind == "P":
             if len(e.words) < 3 or e.words[1] != name or e.actor is None:
                 continue
@@ -346,6 +446,14 @@ def jc_block(name, nparam, nthreads, events):
             src.append(e)
     lines.append("end")
     src.append(None)
+    out.append((lines, src, curn))
+    return out
+
+
+def jc_block(name, nparam, nthreads, events):
+    """(lines, src) of the object's FIRST incarnation (the whole trace when the program never re-initialises the
+    object); kept for the modules that project their own programs (tools/props/compose.py)"""
+    lines, src, _ = jc_blocks(name, nparam, nthreads, events)[0]
     return lines, src
 
 
@@ -364,11 +472,14 @@ def oracle(case, res):
     dec_started = {j: 0 for j in N}
     dec_returned = {j: 0 for j in N}
     cur = {}                    # thread -> [op, obj, late?, points on obj during this call]
-    waited = {}                 # thread -> counters whose jcwait it has completed
+    waited = {}                 # thread -> (counter, incarnation) whose jcwait it has completed
+    inc = {j: 0 for j in N}     # incarnation of the object (completed jcinit calls)
     for e in res["events"]:
         if e.kind == "C":
             op = e.words[0]
-            if op in ("jcwait", "jcdec") and e.words[1] in N:
+            if op == "jcinit" and e.words[1] in N:
+                cur[e.actor] = ["jcinit", e.words[1], int(e.words[2]), "attr" in e.words[3:]]
+            elif op in ("jcwait", "jcdec") and e.words[1] in N:
                 j = e.words[1]
                 if op == "jcdec":
                     dec_started[j] += 1
@@ -391,7 +502,20 @@ def oracle(case, res):
             if not c:
                 continue
             val = int(e.words[1])
-            if c[0] == "jcwait":
+            if c[0] == "jcinit":
+                # init does not depend on what the object held before nor on attr: state 0, fields of N
+                j, n2, attr = c[1], c[2], c[3]
+                f = {k: rx.search(" ".join(e.words)) for k, rx in _F.items()}
+                got = {k: int(m.group(1)) for k, m in f.items() if m}
+                exp = {"state": 0, "n": n2, "bits": n2.bit_length(), "mask": (1 << n2.bit_length()) - 1}
+                if val != 0 or got != exp:
+                    fails.append("step %d: myth_join_counter_init(%s, %s, %d) on a counter that had completed %d round(s) "
+                                 "(N was %d) returned %d and left %s, expected %s" % (
+                                     e.step, j, "&attr" if attr else "NULL", n2, inc[j] + (1 if dec_returned[j] >= N[j] and N[j] else 0),
+                                     N[j], val, " ".join("%s=%s" % (k, got.get(k)) for k in exp), " ".join("%s=%d" % kv for kv in exp.items())))
+                N[j], dec_started[j], dec_returned[j] = n2, 0, 0
+                inc[j] += 1
+            elif c[0] == "jcwait":
                 j = c[1]
                 if val != 0:
                     fails.append("step %d: jcwait %s returned %d" % (e.step, j, val))
@@ -401,17 +525,17 @@ def oracle(case, res):
                 if c[2] and c[3] != ["jc.wait.read"]:
                     fails.append("step %d: t%d called jcwait %s after all %d decrements had returned, but it did not return at its first read: %s"
                                  % (e.step, e.actor, j, N[j], ",".join(c[3])))
-                waited.setdefault(e.actor, set()).add(j)
+                waited.setdefault(e.actor, set()).add((j, inc[j]))
             elif c[0] == "jcdec":
                 j = c[1]
                 dec_returned[j] += 1
                 if val != 0:
                     fails.append("step %d: jcdec %s returned %d" % (e.step, j, val))
             elif c[0] == "get":
-                m = re.match(r"p(\w+)_(\d+)$", c[1])
-                if m and m.group(1) in waited.get(e.actor, ()) and val != 1:
-                    fails.append("step %d: t%d passed jcwait %s but predecessor %s of %s has not run (flag %s = %d)"
-                                 % (e.step, e.actor, m.group(1), m.group(2), m.group(1), c[1], val))
+                m = re.match(r"p(\w+?)(?:r(\d+))?_(\d+)$", c[1])
+                if m and (m.group(1), int(m.group(2) or 0)) in waited.get(e.actor, ()) and val != 1:
+                    fails.append("step %d: t%d passed jcwait %s (incarnation %s) but predecessor %s has not run (flag %s = %d): "
+                                 "released before the N-th decrement" % (e.step, e.actor, m.group(1), m.group(2) or 0, m.group(3), c[1], val))
             cur[e.actor] = None
     return fails
 
@@ -426,6 +550,11 @@ def derived_events(res, h):
     for e in res["events"]:
         if e.kind == "S" and e.words and e.words[0] == "wakemany.spin":
             h["wakemany.spin"] = h.get("wakemany.spin", 0) + 1
+        if e.kind == "C" and e.words[0] == "jcinit" and e.words[1] in N:
+            N[e.words[1]] = int(e.words[2])
+            dec_ret[e.words[1]] = 0
+            k = "jcinit.attr" if "attr" in e.words[3:] else "jcinit.null"
+            h[k] = h.get(k, 0) + 1
         if e.kind == "C":
             indec[e.actor] = e.words[1] if e.words[0] == "jcdec" and e.words[1] in N else None
         if e.kind == "R" and indec.get(e.actor):
@@ -468,9 +597,13 @@ def derived_events(res, h):
 def run_one(exe, drv, case, wd, name):
     r = trace.run_case(exe, case, wd, name, timeout=60)
     jcs, nt = jc_objects(case)
-    blocks = [jc_block(j, n, nt, r["events"]) for j, n in jcs]
+    blocks, incs = [], []
+    for j, n in jcs:
+        for i, (lines, src, ni) in enumerate(jc_blocks(j, n, nt, r["events"])):
+            blocks.append((lines, src))
+            incs.append((j if i == 0 else "%s#%d" % (j, i), ni))
     res = {"case": case, "rc": r["rc"], "verdict": r["verdict"], "events": r["events"], "stderr": r["out"][-500:],
-           "blocks": blocks, "jcs": jcs}
+           "blocks": blocks, "jcs": jcs, "incs": incs}
     return res
 
 
@@ -483,7 +616,7 @@ def validate(drv, results):
         r["model"] = out[i:i + len(r["blocks"])]
         i += len(r["blocks"])
         r["fail_context"] = []
-        for (j, _), b, x in zip(r["jcs"], r["blocks"], r["model"]):
+        for (j, _), b, x in zip(r["incs"], r["blocks"], r["model"]):
             if x.startswith("FAIL"):
                 k = int(x.split()[1])
                 r["fail_context"].append({"object": j, "verdict": x, "model_input_tail": b[0][max(0, k - 8):k + 1],
@@ -512,7 +645,8 @@ def run(ctx):
 
     # ---- unit correspondence: calc_bits / init fields --------------------------------------
     pcases = preset_cases(ctx)
-    ucases = pcases + unit_cases(ctx)
+    rcases = reinit_cases(ctx)
+    ucases = pcases + rcases + unit_cases(ctx)
     wline, wbad = widths_obligation(unit)
     uimpl, rc1, _ = vlib.run_lines([unit], ucases, timeout=300)
     umodel, rc2, _ = vlib.run_lines([drv], ucases, timeout=300)
@@ -545,7 +679,7 @@ def run(ctx):
         if any(x.startswith("FAIL") for x in r["model"]):
             mfail.append(r)
         _, _, _, params = trace.parse_case(r["case"])
-        for j, n in r["jcs"]:
+        for j, n in r["incs"]:
             dist["N"][str(n)] = dist["N"].get(str(n), 0) + 1
         for k in ("workers", "pswitch"):
             dist[k][params.get(k, "?")] = dist[k].get(params.get(k, "?"), 0) + 1
@@ -560,7 +694,7 @@ def run(ctx):
 
     ctx.cov["correspondence"] = {
         "unit_cases": len(ucases), "unit_disagreements": len(udiffs), "unit_oracle_failures": len(ufail),
-        "preset_cases": len(pcases), "word_widths": wline, "word_width_mismatches": wbad,
+        "preset_cases": len(pcases), "reinit_cases": len(rcases), "word_widths": wline, "word_width_mismatches": wbad,
         "cases": len(cases), "corpus_cases": len(corpus), "blocks_replayed": sum(len(r["blocks"]) for r in results),
         "model_events_replayed": ev_total, "disagreements": len(mfail), "oracle_failures": len(ofail),
         "input_distribution": dist, "point_histogram": mine, "points_never_hit": missing}
@@ -573,7 +707,7 @@ def run(ctx):
         "extraction: ExtrOcamlBasic only; ocaml/driver_C07.ml, ocaml/zio.ml",
         "harness/lib_interp.c (schedule controller: one participant at a time, POINT line written immediately before the access); "
         "harness/c07_unit.c (incl. the white-box preset: N-1 added to jc->state through the struct stands for N-1 decrements; "
-        "sizeof obligations on state / n_threads / state_mask); tools/trace.py parse_trace; the projection jc_block in tools/props/c07.py",
+        "sizeof obligations on state / n_threads / state_mask); tools/trace.py parse_trace; the projection jc_blocks in tools/props/c07.py",
         "modelled, not verified here: sleep-queue enqueue/dequeue as one atomic step each (spinlock-protected list, C06's concern); "
         "the run-queue push/pop and the context switch (C01/C02/C03); myth_block_on_queue's run-queue pop has no model step"]
 
@@ -589,7 +723,8 @@ def run(ctx):
                                       "all_failing": [(a, b, m) for a, b, m in ufail[:20]]}, found=True)
     if ofail:
         r, f = ofail[0]
-        ctx.violation("oracle", f[0], {"case": r["case"], "observed": {"verdict": r["verdict"], "rc": r["rc"], "failures": f[:10],
+        head = ([m for m in f if "released before" in m or "myth_join_counter_init" in m] + f)[0]   # the cause before the symptom
+        ctx.violation("oracle", head, {"case": r["case"], "observed": {"verdict": r["verdict"], "rc": r["rc"], "failures": f[:10],
                                                                         "stderr": r["stderr"][-300:]},
                                        "expected": "DONE, every predecessor flag = 1 after jcwait, late waits return at their first read",
                                        "level": "library", "model": r["model"], "n_failing_runs": len(ofail)}, found=True)
@@ -651,7 +786,7 @@ def replay(ctx, path):
         validate(drv, [r])
         print(c)
         print("verdict:", r["verdict"], "rc:", r["rc"])
-        for (j, n), m in zip(r["jcs"], r["model"]):
+        for (j, n), m in zip(r["incs"], r["model"]):
             print("model replay of %s (N=%d): %s" % (j, n, m))
         for f in r["fail_context"]:
             print("  ", json.dumps(f))
